@@ -233,6 +233,22 @@ type Fact struct {
 // passed at the guarding call (identity of "the thing that was checked" across the helper boundary).
 func (f Fact) Resolve(v ssa.Value) ssa.Value {
 	v = canon(v)
+	// a value parameter spilled to a local slot (its fields are addressed through the slot)
+	if al, isAl := v.(*ssa.Alloc); isAl && f.Bind != nil {
+		var only ssa.Value
+		n := 0
+		for _, r := range *al.Referrers() {
+			if st, isSt := r.(*ssa.Store); isSt && st.Addr == ssa.Value(al) {
+				n++
+				only = st.Val
+			}
+		}
+		if n == 1 {
+			if _, isP := only.(*ssa.Parameter); isP {
+				v = only
+			}
+		}
+	}
 	p, ok := v.(*ssa.Parameter)
 	if !ok || f.Bind == nil {
 		return v
